@@ -391,7 +391,18 @@ func (fc *FnCtx) branch(st *State, c *Term, thenF, elseF func(*State) []Outcome)
 		}
 	}
 	if len(fa) == 1 && len(fb) == 1 {
-		outs = append(outs, Outcome{kind: oFall, st: mergeStates(c, fa[0], fb[0], st)})
+		ms := mergeStates(c, fa[0], fb[0], st)
+		for obj, v := range ms.vars {
+			if r := fc.e.resolveValue(ms, v); r != v {
+				ms.vars[obj] = r
+			}
+		}
+		for id, v := range ms.heap {
+			if r := fc.e.resolveValue(ms, v); r != v {
+				ms.heap[id] = r
+			}
+		}
+		outs = append(outs, Outcome{kind: oFall, st: ms})
 		return outs
 	}
 	for _, s := range fa {
